@@ -43,12 +43,15 @@ def _sites(tree):
 
 
 def _method(tree, cls, name):
+    found = None
     for n in tree.body:
         if isinstance(n, ast.ClassDef) and n.name == cls:
             for m in n.body:
                 if isinstance(m, ast.FunctionDef) and m.name == name:
-                    return m
-    raise ExtractError(f'{cls}.{name} not found')
+                    found = m        # the last definition wins (earlier ones are @overload stubs)
+    if found is None:
+        raise ExtractError(f'{cls}.{name} not found')
+    return found
 
 
 def _body(fn):
@@ -105,6 +108,29 @@ def generate(repo):
         raise ExtractError('IDMan.__init__: unrecognised body')
     rm_ent = ('VMF.remove_ent', 'ent', 'discard') in sites
     rm_node = ('VMF.remove_ent', 'node', 'discard') in sites
+    add_node = ('VMF.add_ent', 'node', 'get_id') in sites
+    if add_node != (('VMF.add_ents', 'node', 'get_id') in sites):
+        raise ExtractError('VMF.add_ent and VMF.add_ents treat node ids differently')
+    if add_node:
+        fn = ast.unparse(_method(tree, 'VMF', 'add_ent')).replace(' ', '')
+        if "item['nodeid']=str(self.node_id.get_id(node_id))" not in fn:
+            raise ExtractError('VMF.add_ent: unrecognised use of node_id.get_id')
+    pop = _method(tree, 'Entity', 'pop')
+    pop_del = any(isinstance(n, ast.Delete) and any(isinstance(x, ast.Subscript) and _norm(x.value) == 'self' for x in n.targets)
+                  for n in ast.walk(pop))
+    pop_raw = 'self._keys.pop(' in _norm(pop)
+    if pop_del == pop_raw:
+        raise ExtractError('Entity.pop: neither `del self[k]` nor `self._keys.pop(k)`: ' + ast.unparse(pop)[-200:])
+    parse = _norm(_method(tree, 'VMF', 'parse'))
+    if 'map_obj.spawn=worldspawn=Entity.parse(map_obj,map_spawn,_worldspawn=True)' not in parse:
+        raise ExtractError('VMF.parse: unrecognised worldspawn handling')
+    if "placeholder=map_obj.spawn" in parse and "_remove_copyset(map_obj.by_class,'worldspawn',placeholder)" in parse \
+            and '_remove_copyset(map_obj.by_target,None,placeholder)' in parse:
+        keeps = False
+    elif 'placeholder' not in parse and '_remove_copyset' not in parse:
+        keeps = True
+    else:
+        raise ExtractError('VMF.parse: unrecognised handling of the placeholder spawn entity')
     b = lambda x: 'true' if x else 'false'
     lines = [
         'import Srctools.Model.C08',
@@ -118,7 +144,7 @@ def generate(repo):
         '',
         '/-- release sites / guards the model is run with. -/',
         'def cfg : C08.Cfg :=',
-        f'  {{ removeEntDiscardsEntId := {b(rm_ent)}, removeEntDiscardsNodeId := {b(rm_node)}, discardGuard := {b(g1)} }}',
+        f'  {{ removeEntDiscardsEntId := {b(rm_ent)}, removeEntDiscardsNodeId := {b(rm_node)}, discardGuard := {b(g1)},\n    addEntAllocatesNode := {b(add_node)}, popReleasesNode := {b(pop_del)},\n    parseKeepsPlaceholder := {b(keeps)} }}',
         '',
         'end Gen.C08',
         '',
